@@ -586,3 +586,280 @@ Proof.
   exists a'. split; [exact E1|]. split; [exact E2|]. rewrite E3. destruct z as [|y [|? ?]]; try apply orb_false_r.
   destruct (same_stmt T x y) eqn:Es; [|apply orb_false_r]. exfalso. apply Hne. f_equal. symmetry. eapply singleton_same_stmt; eassumption.
 Qed.
+
+(* ------------------------------------------------------------------ (c) isolation: what a supervisor step leaves alone *)
+Lemma in_remove1_other (y x : token) l : y <> x -> In y l -> In y (remove1 x l).
+Proof.
+  intros Hne. induction l as [|w r IH]; intros H; [destruct H|]. cbn [remove1]. destruct (token_eqb x w) eqn:E.
+  - apply token_eqb_eq in E. subst w. destruct H as [H|H]; [congruence|exact H].
+  - destruct H as [H|H]; [left; exact H|right; apply IH; exact H].
+Qed.
+
+Lemma in_relabel_other z k d k0 k' l : z <> d -> (In (z, k) ((d, k') :: remove1 (d, k0) l) <-> In (z, k) l).
+Proof.
+  intros Hne. split.
+  - intros [E|H]; [inv E; contradiction|eapply in_remove1; exact H].
+  - intros H. right. apply in_remove1_other; [intros E; inv E; contradiction|exact H].
+Qed.
+
+Definition untouched (u : sst) (e : ev) (z : dn) : Prop :=
+  match e with
+  | EProcSchedule d | EBackoff d | EReturn d _ | ESignalHealthy d | ESignalDone d => z <> d
+  | ERunGroup d names => forall x, In x names -> z <> d ++ [x]
+  | EProcDied d k => z <> d /\ (forall i a, find d (s_tree u) = Some i -> find z (s_tree u) = Some a -> sibling_of d (n_group i) z a = false)
+  | EGC => is_target (gct (s_tree u)) z = false /\ below_target (gct (s_tree u)) z = false
+  | EKill => False
+  end.
+
+Lemma step_other u e u' z : step true u e = Ok u' -> untouched u e z ->
+  find z (s_tree u') = find z (s_tree u) /\ (forall k, In (z, k) (s_toks u') <-> In (z, k) (s_toks u)).
+Proof.
+  destruct e as [d|d k| | |d|d|d|d names|d k]; cbn [step untouched].
+  - destruct (s_killed u || _); [discriminate|]. destruct (find d (s_tree u)); [|discriminate]. intros H Hz; inv H. cbn [s_tree s_toks with_toks].
+    split; [reflexivity|]. intros k. apply in_relabel_other. exact Hz.
+  - destruct (s_killed u || _); [discriminate|]. destruct (proc_died d k (s_tree u)) as [t'|] eqn:Ep; [|discriminate]. intros H [Hz Hsib]; inv H. cbn [s_tree s_toks]. split.
+    + unfold proc_died in Ep. destruct (find d (s_tree u)) as [i|] eqn:Ed; [|discriminate]. apply dn_eqb_neq in Hz.
+      assert (E1 : find z (update d set_exited (s_tree u)) = find z (s_tree u)) by (rewrite find_update, Hz; reflexivity).
+      assert (Other : (if cancelled d (update d set_exited (s_tree u)) && match k with RCtx => true | _ => false end
+                       then Some (update d (set_state SCanceled) (update d set_exited (s_tree u)))
+                       else Some (cancel_siblings d (n_group i) (update d (fun x => set_flag (set_state SDead x)) (update d set_exited (s_tree u))))) = Some t' ->
+                      find z t' = find z (s_tree u)).
+      { destruct (cancelled d (update d set_exited (s_tree u)) && _); intros H; inv H.
+        - rewrite find_update, Hz. exact E1.
+        - rewrite cancel_siblings_find, find_update, Hz, E1. destruct (find z (s_tree u)) as [a|] eqn:Ez; [|reflexivity]. cbn [option_map]. destruct d; [reflexivity|].
+          rewrite (Hsib i a eq_refl eq_refl). reflexivity. }
+      destruct (n_state i), k; try exact (Other Ep); inv Ep; exact E1.
+    + intros k0. split; [apply in_remove1|]. apply in_remove1_other. intros E; inv E. contradiction.
+  - destruct (s_killed u); [discriminate|]. destruct (gc true (s_tree u)) as [t' new] eqn:Eg. intros H [H1 H2]; inv H. cbn [s_tree s_toks].
+    assert (Et : t' = fst (gc true (s_tree u))) by (rewrite Eg; reflexivity). assert (En : new = snd (gc true (s_tree u))) by (rewrite Eg; reflexivity). subst t' new.
+    split; [apply gc_leaves_others; assumption|]. intros k. rewrite in_app_iff. split; [|auto]. intros [H|H]; [exact H|]. exfalso.
+    unfold gc in H. cbn [snd] in H. apply in_map_iff in H as ([r b] & E & Hin). cbn [fst snd] in E. inv E.
+    assert (is_target (gct (s_tree u)) z = true); [|congruence]. apply is_target_spec. exists b. exact Hin.
+  - intros _ [].
+  - destruct (has (d, TSleep true) (s_toks u)); [intros H Hz; inv H; cbn [s_tree s_toks with_toks]; split; [reflexivity|intros k; apply in_relabel_other; exact Hz]|].
+    destruct (has (d, TSleep false) (s_toks u)); [|discriminate]. intros H Hz; inv H; cbn [s_tree s_toks with_toks]; split; [reflexivity|intros k; apply in_relabel_other; exact Hz].
+  - destruct (negb _); [discriminate|]. destruct (find d (s_tree u)) as [i|]; [|discriminate].
+    destruct (n_state i); intros H Hz; inv H; cbn [s_tree s_toks with_toks];
+      try (split; [reflexivity|intros k; apply in_relabel_other; exact Hz]).
+    split; [|reflexivity]. rewrite find_update. apply dn_eqb_neq in Hz. rewrite Hz. reflexivity.
+  - destruct (negb _); [discriminate|]. destruct (find d (s_tree u)) as [i|]; [|discriminate].
+    destruct (n_state i); intros H Hz; inv H; cbn [s_tree s_toks with_toks];
+      try (split; [reflexivity|intros k; apply in_relabel_other; exact Hz]).
+    split; [|reflexivity]. rewrite find_update. apply dn_eqb_neq in Hz. rewrite Hz. reflexivity.
+  - destruct (negb _); [discriminate|]. destruct (run_group d names (s_tree u)) as [t' new| |] eqn:Er; try discriminate; intros H Hz; inv H; cbn [s_tree s_toks];
+      [|split; reflexivity].
+    unfold run_group in Er. destruct (find d (s_tree u)) as [i|]; [|discriminate]. destruct (n_state i); try discriminate.
+    destruct (existsb _ names); [discriminate|]. destruct (negb (nodupz names)); [discriminate|]. inv Er.
+    assert (Hex : existsb (fun x => dn_eqb z (d ++ [x])) names = false).
+    { destruct (existsb (fun x => dn_eqb z (d ++ [x])) names) eqn:Ex; [|reflexivity]. apply existsb_exists in Ex as (x & Hx & E). apply dn_eqb_eq in E. exfalso. exact (Hz x Hx E). }
+    split.
+    + rewrite find_app. destruct (find z (s_tree u)); [reflexivity|].
+      change (map (fun x => (d ++ [x], {| n_state := SNew; n_flag := false; n_group := ngroups d (s_tree u); n_exited := false |})) names)
+        with (map (mkchild (ngroups d (s_tree u)) d) names). rewrite find_children, Hex. reflexivity.
+    + intros k. rewrite in_app_iff. split; [|auto]. intros [H|H]; [exact H|]. exfalso. apply in_map_iff in H as (x & E & Hx). inv E. exact (Hz x Hx eq_refl).
+  - destruct (negb _); [discriminate|]. intros H Hz; inv H. cbn [s_tree s_toks with_toks]. split; [reflexivity|]. intros k0. apply in_relabel_other. exact Hz.
+Qed.
+
+(* the root's own cancel function is called only by processKill and when the root runnable's own exit is processed; the GC gives it
+   a fresh context only when it restarts the root *)
+Lemma find_update_flag x d f t : (forall i, n_flag (f i) = n_flag i) -> option_map n_flag (find x (update d f t)) = option_map n_flag (find x t).
+Proof.
+  intros Hf. rewrite find_update. destruct (dn_eqb x d) eqn:E; [|reflexivity]. apply dn_eqb_eq in E. subst x. destruct (find d t); cbn [option_map]; [rewrite Hf|]; reflexivity.
+Qed.
+
+Lemma step_root_flag u e u' : step true u e = Ok u' -> e <> EKill -> (forall k, e <> EProcDied [] k) -> (e = EGC -> is_target (gct (s_tree u)) [] = false) ->
+  option_map n_flag (find [] (s_tree u')) = option_map n_flag (find [] (s_tree u)).
+Proof.
+  destruct e as [d|d k| | |d|d|d|d names|d k]; cbn [step]; intros H Hk Hd Hg.
+  - destruct (s_killed u || _); [discriminate|]. destruct (find d (s_tree u)); [|discriminate]. inv H. reflexivity.
+  - destruct (s_killed u || _); [discriminate|]. destruct (proc_died d k (s_tree u)) as [t'|] eqn:Ep; [|discriminate]. inv H. cbn [s_tree].
+    assert (Hd0 : d <> []) by (intros ->; exact (Hd k eq_refl)). unfold proc_died in Ep. destruct (find d (s_tree u)) as [i|]; [|discriminate].
+    assert (Hnr : dn_eqb [] d = false) by (destruct d; [contradiction|reflexivity]).
+    assert (E1 : option_map n_flag (find [] (update d set_exited (s_tree u))) = option_map n_flag (find [] (s_tree u))) by (apply find_update_flag; reflexivity).
+    assert (Other : (if cancelled d (update d set_exited (s_tree u)) && match k with RCtx => true | _ => false end
+                     then Some (update d (set_state SCanceled) (update d set_exited (s_tree u)))
+                     else Some (cancel_siblings d (n_group i) (update d (fun x => set_flag (set_state SDead x)) (update d set_exited (s_tree u))))) = Some t' ->
+                    option_map n_flag (find [] t') = option_map n_flag (find [] (s_tree u))).
+    { destruct (cancelled d (update d set_exited (s_tree u)) && _); intros H; inv H.
+      - rewrite find_update_flag by reflexivity. exact E1.
+      - rewrite cancel_siblings_find. rewrite find_update, Hnr. rewrite <- E1.
+        destruct (find [] (update d set_exited (s_tree u))) as [r|]; [|reflexivity]. cbn [option_map]. destruct d as [|a d']; [contradiction|].
+        unfold sibling_of. cbn [List.length Nat.eqb]. rewrite andb_false_r. reflexivity. }
+    destruct (n_state i), k; try exact (Other Ep); inv Ep; exact E1.
+  - destruct (s_killed u); [discriminate|]. destruct (gc true (s_tree u)) as [t' new] eqn:Eg. inv H. cbn [s_tree].
+    assert (Et : t' = fst (gc true (s_tree u))) by (rewrite Eg; reflexivity). subst t'. rewrite gc_leaves_others; [reflexivity| |apply Hg; reflexivity].
+    destruct (below_target (gct (s_tree u)) []) eqn:B; [|reflexivity]. apply below_target_spec in B as (r & b & _ & Hp). apply strict_prefix_spec in Hp as [Hp Hne].
+    destruct r; [contradiction|discriminate].
+  - contradiction.
+  - destruct (has (d, TSleep true) (s_toks u)); [inv H; reflexivity|]. destruct (has (d, TSleep false) (s_toks u)); [inv H; reflexivity|discriminate].
+  - destruct (negb _); [discriminate|]. destruct (find d (s_tree u)) as [i|]; [|discriminate]. destruct (n_state i); inv H; cbn [s_tree with_toks]; try reflexivity.
+    apply find_update_flag. reflexivity.
+  - destruct (negb _); [discriminate|]. destruct (find d (s_tree u)) as [i|]; [|discriminate]. destruct (n_state i); inv H; cbn [s_tree with_toks]; try reflexivity.
+    apply find_update_flag. reflexivity.
+  - destruct (negb _); [discriminate|]. destruct (run_group d names (s_tree u)) as [t' new| |] eqn:Er; try discriminate; inv H; cbn [s_tree]; [|reflexivity].
+    unfold run_group in Er. destruct (find d (s_tree u)) as [i|]; [|discriminate]. destruct (n_state i); try discriminate.
+    destruct (existsb _ names); [discriminate|]. destruct (negb (nodupz names)); [discriminate|]. inv Er. rewrite find_app. destruct (find [] (s_tree u)); [reflexivity|].
+    change (map (fun x => (d ++ [x], {| n_state := SNew; n_flag := false; n_group := ngroups d (s_tree u); n_exited := false |})) names)
+      with (map (mkchild (ngroups d (s_tree u)) d) names). rewrite find_children.
+    assert (existsb (fun x => dn_eqb [] (d ++ [x])) names = false) as ->; [|reflexivity].
+    destruct (existsb (fun x => dn_eqb [] (d ++ [x])) names) eqn:Ex; [|reflexivity]. apply existsb_exists in Ex as (x & _ & E). apply dn_eqb_eq in E. destruct d; discriminate.
+  - destruct (negb _); [discriminate|]. inv H. reflexivity.
+Qed.
+
+Lemma cancelled_ext z t t' : NoDup (map fst t) -> NoDup (map fst t') ->
+  (forall p, is_prefix p z = true -> option_map n_flag (find p t') = option_map n_flag (find p t)) -> cancelled z t' = cancelled z t.
+Proof.
+  assert (G : forall a b, NoDup (map fst a) -> (forall p, is_prefix p z = true -> option_map n_flag (find p b) = option_map n_flag (find p a)) -> cancelled z a = true -> cancelled z b = true).
+  { intros a b Hnd Hf H. apply cancelled_spec in H as (p & i & Hin & Hp & Hfl). apply (in_find _ _ _ Hnd) in Hin. specialize (Hf p Hp). rewrite Hin in Hf. cbn in Hf.
+    destruct (find p b) as [j|] eqn:Ej; [|discriminate]. cbn in Hf. inv Hf. apply cancelled_spec. exists p, j. split; [apply find_in; exact Ej|]. split; [exact Hp|congruence]. }
+  intros H1 H2 Hf. destruct (cancelled z t) eqn:E.
+  - apply (G t t' H1 Hf E).
+  - destruct (cancelled z t') eqn:E'; [|reflexivity]. rewrite <- E. symmetry. apply (G t' t H2); [|exact E']. intros p Hp. symmetry. apply Hf. exact Hp.
+Qed.
+
+Lemma sup_events_le1 T c s e : (List.length (sup_events_of T c s e) <= 1)%nat.
+Proof.
+  destruct e as [e|f|d|x|n|x|]; cbn [sup_events_of List.length]; try lia.
+  - destruct e; try (destruct (signal_misuse (p_sup s) _)); cbn; lia.
+  - destruct (nth_error (prog_of T c) (p_pc s)) as [[svs roe|w| | | |isnil]|]; cbn [List.length]; try lia.
+    + destruct (run_group [] (ids svs) (s_tree (p_sup s))); [cbn; lia|destruct roe; cbn; lia|cbn; lia].
+    + destruct f; cbn; lia.
+    + destruct (signal_misuse (p_sup s) (ESignalHealthy [])); cbn; lia.
+    + destruct (signal_misuse (p_sup s) (ESignalDone [])); cbn; lia.
+Qed.
+
+(* nothing of y's subtree, nor the root, is DEAD or CANCELED: the GC has nothing to restart there *)
+Definition quiet (y : Z) (t : tree) : Prop := forall p i, find p t = Some i -> (p = [] \/ is_prefix [y] p = true) -> wanted (n_state i) = false.
+
+(* events that are not service y's own, not the root's failure, not the shutdown *)
+Definition foreign T (s : pst) (y : Z) (e : pev) : Prop :=
+  match e with
+  | PSup EKill => False
+  | PSup EGC => quiet y (s_tree (p_sup s))
+  | PSup (EProcDied d k) => match d with [] => False | [x] => x <> y /\ same_stmt T x y = false | x :: _ => x <> y end
+  | PSup (EProcSchedule d) | PSup (EBackoff d) | PSup (EReturn d _) | PSup (ESignalHealthy d) | PSup (ESignalDone d) | PSup (ERunGroup d _) | PPanic d =>
+    is_prefix [y] d = false
+  | PRoot _ => find [y] (s_tree (p_sup s)) <> None
+  | _ => True
+  end.
+
+Lemma signal_misuse_dn u e d0 : signal_misuse u e = Some d0 -> e = ESignalHealthy d0 \/ e = ESignalDone d0.
+Proof.
+  destruct e; cbn [signal_misuse]; try discriminate.
+  - destruct (has (d, TInst) (s_toks u)); [|discriminate]. destruct (find d (s_tree u)) as [i|]; [|discriminate]. destruct (n_state i); intros H; inv H; auto.
+  - destruct (has (d, TInst) (s_toks u)); [|discriminate]. destruct (find d (s_tree u)) as [i|]; [|discriminate]. destruct (n_state i); intros H; inv H; auto.
+Qed.
+
+Lemma prefix_under y z p : is_prefix [y] z = true -> is_prefix p z = true -> p = [] \/ is_prefix [y] p = true.
+Proof.
+  destruct p as [|a p']; [auto|]. destruct z as [|b z']; [discriminate|]. cbn [is_prefix]. intros H1 H2. right.
+  apply andb_true_iff in H1 as [H1 _]. apply andb_true_iff in H2 as [H2 _]. apply Z.eqb_eq in H1, H2. subst. rewrite Z.eqb_refl. reflexivity.
+Qed.
+
+Lemma quiet_no_target y u z : Inv u -> quiet y (s_tree u) -> (z = [] \/ is_prefix [y] z = true) ->
+  is_target (gct (s_tree u)) z = false /\ below_target (gct (s_tree u)) z = false.
+Proof.
+  intros (Hnd & _) Hq Hz.
+  assert (W : forall r b, In (r, b) (gct (s_tree u)) -> (r = [] \/ is_prefix [y] r = true) -> False).
+  { intros r b Hin Hr. destruct (targets_spec _ _ _ Hnd Hin) as (i & Ei & _ & Hc & _). unfold can, can0 in Hc. rewrite !andb_true_iff in Hc. destruct Hc as [[[Hw _] _] _].
+    rewrite (Hq r i Ei Hr) in Hw. discriminate. }
+  split.
+  - destruct (is_target (gct (s_tree u)) z) eqn:E; [|reflexivity]. exfalso. apply is_target_spec in E as [b Hb]. exact (W z b Hb Hz).
+  - destruct (below_target (gct (s_tree u)) z) eqn:E; [|reflexivity]. exfalso. apply below_target_spec in E as (r & b & Hb & Hp). apply (W r b Hb).
+    apply strict_prefix_spec in Hp as [Hp Hne]. destruct Hz as [->|Hz]; [destruct r; [contradiction|discriminate]|]. eapply prefix_under; eassumption.
+Qed.
+
+Lemma foreign_untouched T c s e s' y z e0 : PInv T s -> pstep1 T c s e = PRun s' -> foreign T s y e -> is_prefix [y] z = true ->
+  In e0 (sup_events_of T c s e) -> untouched (p_sup s) e0 z.
+Proof.
+  intros [Hinv Hg] Hstep Hf Hz Hin.
+  assert (Zne : z <> []) by (intros ->; discriminate).
+  assert (Other : forall d, is_prefix [y] d = false -> z <> d) by (intros d Hd ->; congruence).
+  assert (R : forall d k, is_prefix [y] d = false -> In e0 [EReturn d k] -> untouched (p_sup s) e0 z) by (intros d k Hd [<-|[]]; cbn [untouched]; apply Other; exact Hd).
+  destruct e as [e|f|d|x|n|x|]; cbn [pstep sup_events_of foreign] in *; try (exfalso; exact Hin).
+  - unfold sup_event in Hstep. destruct (root_own e) eqn:Er; [discriminate|].
+    destruct e as [d|d k| | |d|d|d|d names|d k].
+    + destruct Hin as [<-|[]]. cbn [untouched]. apply Other. exact Hf.
+    + assert (Hin' : e0 = EProcDied d k).
+      { cbn [signal_misuse] in Hin. destruct Hin as [<-|[]]. reflexivity. }
+      subst e0. cbn [untouched]. destruct z as [|b z']; [discriminate|]. cbn [is_prefix] in Hz. apply andb_true_iff in Hz as [Hb _]. apply Z.eqb_eq in Hb. subst b.
+      destruct d as [|x d']; [contradiction|]. destruct d' as [|x' d''].
+      * destruct Hf as [Hxy Hss]. split; [intros E; inv E; contradiction|]. intros i a Hi Ha. unfold sibling_of. destruct z' as [|w z''].
+        -- assert ((n_group a =? n_group i)%nat = false) as ->; [|apply andb_false_r]. apply Nat.eqb_neq. intros E. symmetry in E. apply (Hg x y i a Hi Ha) in E. congruence.
+        -- cbn [List.length Nat.eqb]. rewrite andb_false_r. reflexivity.
+      * split; [intros E; inv E; contradiction|]. intros i a Hi Ha. unfold sibling_of.
+        assert (dn_eqb (parent (x :: x' :: d'')) (parent (y :: z')) = false) as ->; [|rewrite andb_false_r; reflexivity].
+        apply dn_eqb_neq. unfold parent. cbn [removelast]. destruct z' as [|w z'']; [discriminate|]. intros E. inv E. contradiction.
+    + cbn [signal_misuse] in Hin. destruct Hin as [<-|[]]. cbn [untouched]. destruct (quiet_no_target y (p_sup s) z Hinv Hf (or_intror Hz)). auto.
+    + contradiction.
+    + cbn [signal_misuse] in Hin. destruct Hin as [<-|[]]. cbn [untouched]. apply Other. exact Hf.
+    + destruct (signal_misuse (p_sup s) (ESignalHealthy d)) as [d0|] eqn:Em.
+      * apply signal_misuse_dn in Em as [Em|Em]; inv Em. apply (R d0 RErr Hf Hin).
+      * destruct Hin as [<-|[]]. cbn [untouched]. apply Other. exact Hf.
+    + destruct (signal_misuse (p_sup s) (ESignalDone d)) as [d0|] eqn:Em.
+      * apply signal_misuse_dn in Em as [Em|Em]; inv Em. apply (R d0 RErr Hf Hin).
+      * destruct Hin as [<-|[]]. cbn [untouched]. apply Other. exact Hf.
+    + cbn [signal_misuse] in Hin. destruct Hin as [<-|[]]. cbn [untouched]. intros x Hx E. subst z.
+      destruct (prefix_of_child _ _ _ Hz) as [E|E]; [|congruence]. destruct d as [|a d']; [discriminate|]. destruct d'; discriminate.
+    + cbn [signal_misuse] in Hin. destruct Hin as [<-|[]]. cbn [untouched]. apply Other. exact Hf.
+  - assert (Rn : is_prefix [y] [] = false) by reflexivity.
+    destruct (nth_error (prog_of T c) (p_pc s)) as [[svs roe|w| | | |isnil]|]; try (exfalso; exact Hin).
+    + destruct (run_group [] (ids svs) (s_tree (p_sup s))) as [t' new| |] eqn:Er; [|destruct roe; [apply (R [] RErr Rn Hin)|destruct Hin]|destruct Hin].
+      destruct Hin as [<-|[]]. cbn [untouched app]. intros x Hx E. subst z. cbn [is_prefix] in Hz. rewrite andb_true_r in Hz. apply Z.eqb_eq in Hz. subst x.
+      unfold run_group in Er. destruct (find [] (s_tree (p_sup s))) as [i|]; [|discriminate]. destruct (n_state i); try discriminate.
+      destruct (existsb (fun x => match find ([] ++ [x]) (s_tree (p_sup s)) with Some _ => true | None => false end) (ids svs)) eqn:Ex; [discriminate|].
+      assert (existsb (fun x => match find ([] ++ [x]) (s_tree (p_sup s)) with Some _ => true | None => false end) (ids svs) = true); [|congruence].
+      apply existsb_exists. exists y. split; [exact Hx|]. cbn [app]. destruct (find [y] (s_tree (p_sup s))); [reflexivity|contradiction].
+    + destruct f; [apply (R [] RErr Rn Hin)|destruct Hin].
+    + destruct (signal_misuse (p_sup s) (ESignalHealthy [])) as [d0|] eqn:Em.
+      * apply signal_misuse_dn in Em as [Em|Em]; inv Em. apply (R [] RErr Rn Hin).
+      * destruct Hin as [<-|[]]. cbn [untouched]. exact Zne.
+    + destruct (signal_misuse (p_sup s) (ESignalDone [])) as [d0|] eqn:Em.
+      * apply signal_misuse_dn in Em as [Em|Em]; inv Em. apply (R [] RErr Rn Hin).
+      * destruct Hin as [<-|[]]. cbn [untouched]. exact Zne.
+    + apply (R [] _ Rn Hin).
+  - apply (R d RErr Hf Hin).
+Qed.
+
+(* THE ISOLATION THEOREM: a step that is foreign to service y — another service's (or its children's) start, calls, exit, panic, the
+   processing of its exit when it is not in y's supervision group, its restart, the root runnable going on, a GC while nothing of y has
+   died — leaves y and everything below it exactly as it was: the nodes (state, own cancel flag, group, exit mark), everything in flight
+   for them (pending schedule, sleeper, running instance, pending exit), and whether their contexts are cancelled *)
+Theorem isolation_step T c s e s' y : PInv T s -> pstep1 T c s e = PRun s' -> foreign T s y e ->
+  forall z, is_prefix [y] z = true ->
+    find z (s_tree (p_sup s')) = find z (s_tree (p_sup s)) /\
+    (forall k, In (z, k) (s_toks (p_sup s')) <-> In (z, k) (s_toks (p_sup s))) /\
+    cancelled z (s_tree (p_sup s')) = cancelled z (s_tree (p_sup s)).
+Proof.
+  intros Hp Hstep Hf.
+  pose proof (pstep_sup _ _ _ _ _ Hstep) as Hrun. pose proof (sup_events_le1 T c s e) as Hle.
+  pose proof (fun z e0 Hz => foreign_untouched T c s e s' y z e0 Hp Hstep Hf Hz) as Hun.
+  pose proof Hp as [Hinv _]. pose proof (pstep_inv _ _ _ _ _ Hinv Hstep) as Hinv'.
+  assert (Hroot : option_map n_flag (find [] (s_tree (p_sup s'))) = option_map n_flag (find [] (s_tree (p_sup s)))).
+  { destruct (sup_events_of T c s e) as [|e0 [|e1 r]] eqn:Ee; cbn [run List.length] in *; [inv Hrun; rewrite H0; reflexivity| |lia].
+    destruct (step true (p_sup s) e0) as [u1| | |] eqn:E0; try discriminate. inv Hrun. apply (step_root_flag _ _ _ E0).
+    - intros ->. exact (Hun [y] EKill (is_prefix_refl [y]) (or_introl eq_refl)).
+    - intros k ->. destruct (Hun [y] _ (is_prefix_refl [y]) (or_introl eq_refl)) as [_ _].
+      (* the root runnable's exit is processed only by PSup (EProcDied [] k), which is not foreign *)
+      destruct e as [e|f|d|x|n|x|]; cbn [sup_events_of] in Ee; try discriminate.
+      + destruct e; try (destruct (signal_misuse (p_sup s) _)); inv Ee. exact Hf.
+      + destruct (nth_error (prog_of T c) (p_pc s)) as [[svs roe|w| | | |isnil]|]; try discriminate.
+        * destruct (run_group [] (ids svs) (s_tree (p_sup s))); [discriminate|destruct roe; discriminate|discriminate].
+        * destruct f; discriminate.
+        * destruct (signal_misuse (p_sup s) (ESignalHealthy [])); discriminate.
+        * destruct (signal_misuse (p_sup s) (ESignalDone [])); discriminate.
+    - intros ->. destruct e as [e|f|d|x|n|x|]; cbn [sup_events_of] in Ee; try discriminate.
+      + destruct e; try (destruct (signal_misuse (p_sup s) _)); inv Ee. cbn [foreign] in Hf. destruct (quiet_no_target y (p_sup s) [] Hinv Hf (or_introl eq_refl)) as [H _]. exact H.
+      + destruct (nth_error (prog_of T c) (p_pc s)) as [[svs roe|w| | | |isnil]|]; try discriminate.
+        * destruct (run_group [] (ids svs) (s_tree (p_sup s))); [discriminate|destruct roe; discriminate|discriminate].
+        * destruct f; discriminate.
+        * destruct (signal_misuse (p_sup s) (ESignalHealthy [])); discriminate.
+        * destruct (signal_misuse (p_sup s) (ESignalDone [])); discriminate. }
+  assert (Hfind : forall z, is_prefix [y] z = true ->
+            find z (s_tree (p_sup s')) = find z (s_tree (p_sup s)) /\ (forall k, In (z, k) (s_toks (p_sup s')) <-> In (z, k) (s_toks (p_sup s)))).
+  { intros z Hz. specialize (Hun z). destruct (sup_events_of T c s e) as [|e0 [|e1 r]]; cbn [run List.length] in *; [inv Hrun; rewrite H0; split; reflexivity| |lia].
+    destruct (step true (p_sup s) e0) as [u1| | |] eqn:E0; try discriminate. inv Hrun. apply (step_other _ _ _ _ E0). apply Hun; [exact Hz|left; reflexivity]. }
+  intros z Hz. destruct (Hfind z Hz) as [F1 F2]. split; [exact F1|]. split; [exact F2|].
+  destruct Hinv as (Hnd & _). destruct Hinv' as (Hnd' & _). apply cancelled_ext; [exact Hnd|exact Hnd'|].
+  intros p Hpz. destruct (prefix_under y z p Hz Hpz) as [->|Hpy]; [exact Hroot|]. destruct (Hfind p Hpy) as [-> _]. reflexivity.
+Qed.
